@@ -249,3 +249,7 @@ mod tests {
         assert_eq!(coalesced_length, expected);
     }
 }
+
+#[cfg(kani)]
+#[path = "/verif/harness/blob.rs"]
+pub(crate) mod verif_harness;
